@@ -1,6 +1,7 @@
 package main
 
 import (
+	"os"
 	"fmt"
 	"go/types"
 	"sort"
@@ -1288,7 +1289,7 @@ func (a *Analysis) CheckC10(rep *Report) {
 // narrowingLenPrefix: src = T(L) where L involves len(x) and T is narrower than int.
 func narrowingLenPrefix(src *Val) (*Val, bool) {
 	src = stripCT(src)
-	if src.Op != "conv" || !isIntegerType(src.Type) {
+	if src.Op != "conv" || src.Type == nil || !(isIntegerType(src.Type) || integerTypeSet(src.Type)) {
 		return nil, false
 	}
 	in := stripCT(src.Args[0])
@@ -1425,6 +1426,13 @@ func (a *Analysis) CheckC18(rep *Report) {
 				ord := "count"
 				if len(reps) > 0 {
 					ord = "element-prefix"
+				}
+				if os.Getenv("FPDEBUG") == "o1" {
+					fmt.Fprintln(os.Stderr, "O1", key, originName(e.Fn), "narrowed", narrowed.Key(), "guarded", guarded)
+					for _, c := range conds {
+						g, f := overflowGuard(c, narrowed)
+						fmt.Fprintln(os.Stderr, "    cond", c.V.Key(), c.Taken, "->", g, f)
+					}
 				}
 				if guarded {
 					guardedPrefix[e] = true
